@@ -1,4 +1,4 @@
-CONSTANTS Scope = "bad" OneByOne = FALSE Mutant = "none" Pick = {}
+CONSTANTS Scope = "pfx" OneByOne = FALSE Mutant = "none" Pick = {}
 SPECIFICATION Spec
 INVARIANT TypeOK
 INVARIANT Inv_Fail
